@@ -16,7 +16,9 @@ fn clamp_to_bounds(p: Point, height: i32, width: i32) -> Point {
 // The outline is drawn such that the bounding box of the outermost pixels
 // will be `rect`.
 pub fn stroke_rect<T: Copy>(mut mask: NdTensorViewMut<T, 2>, rect: Rect, value: T, width: u32) {
-    let width = width as i32;
+    // Limit the border width to the size of the rect, so that nothing is drawn
+    // outside of it.
+    let width = (width as i32).min(rect.width()).min(rect.height()).max(0);
 
     // Left edge
     fill_rect(
